@@ -30,6 +30,11 @@ def scripts(draw, tier):
     crit = draw(st.sampled_from(["relative", "absolute", "variance"]))
     fam = draw(st.sampled_from(["monotone", "oscillating", "constant", "zeros", "geometric", "random"]))
     L = draw(st.integers(2, 12))
+    long_ = draw(st.integers(0, 5)) == 0
+    if long_:
+        # long time axis: histories of 66 to 110 evaluations in one run (slowly converging, periodic with a period in the thirties, or random)
+        L = draw(st.integers(66, 110))
+        fam = draw(st.sampled_from(["geometric", "geometric", "geometric", "periodic", "periodic", "random"]))
     fl = st.floats(-5, 5, allow_nan=False, width=64)
     base = draw(fl)
     if fam == "monotone":
@@ -42,8 +47,12 @@ def scripts(draw, tier):
         vals = [base] * L
     elif fam == "zeros":
         vals = [draw(st.sampled_from([0.0, 0.0, 1.0, -1.0, 0.5])) for _ in range(L)]
+    elif fam == "periodic":
+        P_ = draw(st.sampled_from([31, 32, 33, 34, 35, 64, 65]))
+        cyc = draw(st.lists(fl, min_size=P_, max_size=P_))
+        vals = [cyc[i % P_] for i in range(L)]
     elif fam == "geometric":
-        r = draw(st.floats(0.1, 0.99, allow_nan=False, width=64))
+        r = draw(st.floats(0.9 if long_ else 0.1, 0.99, allow_nan=False, width=64))
         vals = [base * r ** i + 1.0 for i in range(L)]
     else:
         vals = draw(st.lists(fl, min_size=L, max_size=L))
@@ -52,6 +61,9 @@ def scripts(draw, tier):
          "tol": draw(st.one_of(st.sampled_from([0.0, 1e300, float("inf"), 0.1, 0.5]), st.floats(1e-6, 3, allow_nan=False, width=64))),
          "np_float": draw(st.booleans()), "crit_spelling": draw(st.sampled_from(["plain", "upper", "spaces"])),
          "deprecated_class": draw(st.booleans())}
+    if long_:
+        c["tol"] = draw(st.sampled_from([0.0, 0.0, 1e-9, c["tol"]]))
+        c["pe"] = c["ps"] = 1
     c["evaluator"] = "observable" if crit == "variance" else draw(st.sampled_from(["metric", "metric", "observable"]))
     if c["evaluator"] == "observable":
         c["ds"] = draw(st.lists(st.sampled_from([0.0, 0.1, 0.5, 1.0, 2.0]), min_size=L, max_size=L))
@@ -62,12 +74,23 @@ def scripts(draw, tier):
         # tolerance placed a few 1e-8 (relative) above or below one of the deviations the run will actually see: the decision is still well
         # defined in double precision (the reference cuts runs only within 1e-9), but not for an implementation that loses digits
         # "j": mostly the first comparisons the run makes (later ones are often pre-empted by an earlier stop)
-        c["tol_near"] = {"j": draw(st.sampled_from([0, 0, 1, 2, 3, 5, 8, 11])), "sign": draw(st.sampled_from([-1, 1])), "delta": draw(st.sampled_from([1e-8, 1e-8, 3e-8, 1e-7, 1e-6]))}
+        c["tol_near"] = {"j": draw(st.sampled_from([0, 0, 1, 2, 3, 5, 8, 11]) if not long_ else st.integers(55, 72)), "sign": draw(st.sampled_from([-1, 1])), "delta": draw(st.sampled_from([1e-8, 1e-8, 3e-8, 1e-7, 1e-6]))}
     c["stopper_first"] = draw(st.integers(0, 3)) == 0    # the stopper listed BEFORE its evaluator: at epoch e it sees the evaluations recorded up to the previous epoch
     c["se"] = draw(st.sampled_from([1, 1, 1, 2, 3, 4]))  # starting_epoch: epochs are numbered se..E, periods refer to the epoch NUMBER
     c["extra_names"] = draw(st.booleans())              # the evaluator tracks other quantities besides the monitored one
     c["variance_name"] = draw(st.sampled_from([None, "m", "a", "m_variance"]))    # deprecated class only: documented as ignored
     c["second_stopper"] = draw(st.sampled_from([None, None, "before", "after"]))
+    c["abort_between"] = draw(st.integers(0, 3)) == 0
+    if c["abort_between"] and crit != "variance":
+        c["rounds"], c["extra_names"], c["evaluator"], c["stopper_first"] = 2, True, "metric", False
+        c.pop("ds", None)
+        if draw(st.integers(0, 3)) > 0:
+            # ... and the next fit() checks the rule BEFORE its first evaluation (stopper period 1, evaluator period 2 or 3, history kept)
+            c["clear_between"], c["pe"], c["ps"], c["se"], c["patience"] = False, draw(st.sampled_from([2, 3])), 1, 1, min(c["patience"], 2)
+    if long_ and fam == "geometric":
+        # slowly converging long run: the tolerance sits just above the deviation of an evaluation between the 60th and the 77th, which is
+        # then the first one to meet the rule
+        c["tol_near"] = {"j": draw(st.integers(55, 72)), "sign": draw(st.sampled_from([1, 1, 1, -1])), "delta": draw(st.sampled_from([1e-8, 1e-6, 1e-3]))}
     c["second_same_quantity"] = draw(st.booleans())  # another stopper on the SAME evaluator (other quantity, other patience, tolerance 0: never fires)
     return c
 
@@ -134,6 +157,8 @@ def plan_rounds(c):
     Ltot = len(c["vals"])
     lens = [Ltot] if nr == 1 else [max(1, Ltot // 2), Ltot - max(1, Ltot // 2)]
     plan, hist, truncated, done = [], [], False, 0
+    abort_info = None
+    c["_abort_info"] = None
     for Lr in lens:
         if Lr < 1:
             break
@@ -150,9 +175,23 @@ def plan_rounds(c):
             assert cut2 is None
         plan.append((E, stop_e))
         done = cnt[0]
-        hist = [] if c.get("clear_between") else h
+        hist = h
         if truncated:
             break
+        if len(plan) == 1 and nr == 2 and c.get("abort_between") and not c.get("stopper_first") and c.get("evaluator") == "metric" and c.get("extra_names") and done < Ltot - 1:
+            # the aborted fit: epochs se .. E_ab, the evaluation at E_ab (the first multiple of the evaluator's period) consumes one scripted
+            # value and then fails; stopper checks in the epochs before it see the unchanged history
+            E_ab = next(e for e in range(c.get("se", 1), c.get("se", 1) + c["pe"] + 1) if e % c["pe"] == 0)
+            h2, cnt2 = list(hist), [done]
+            stop_ab, cut_ab = reference(dict(c, pe=10 ** 9), E_ab - 1, h2, cnt2) if E_ab - 1 >= c.get("se", 1) else (None, None)
+            if cut_ab is not None:
+                break
+            abort_info = {"E_ab": E_ab, "stop_ab": stop_ab}
+            if stop_ab is None:
+                done += 1
+        if c.get("clear_between"):
+            hist = []
+    c["_abort_info"] = abort_info if len(plan) == 2 or abort_info is None else abort_info
     return plan, truncated
 
 
@@ -202,7 +241,13 @@ def check(c):
             i = counter[0]
             counter[0] += 1
             return conv(c["vals"][i])
-        ev = MetricEvaluator(c["pe"], {"a": (lambda s_, **kw: 7.0), "m": metric, "z": (lambda s_, **kw: -3.0)} if c.get("extra_names") else {"m": metric})
+
+        def moody(s_, **kw):
+            if moody_on:
+                raise RuntimeError("a metric failed")
+            return -3.0
+        moody_on = []
+        ev = MetricEvaluator(c["pe"], {"a": (lambda s_, **kw: 7.0), "m": metric, "z": moody} if c.get("extra_names") else {"m": metric})
     spell = {"plain": c["criterion"], "upper": c["criterion"].upper(), "spaces": "  " + c["criterion"].capitalize() + " "}[c["crit_spelling"]]
     if c["criterion"] == "variance" and c["deprecated_class"]:
         with warnings.catch_warnings(record=True) as w:
@@ -238,6 +283,24 @@ def check(c):
         state.fit(data, epochs=E, pos_batch_size=2, lr=0.01, starting_epoch=c.get("se", 1), callbacks=cb_list)
         r = judge_round(c, ri, E, stop_e, ends, es, state, ev, before_last)
         nt_any = nt_any or r
+        ab = c.get("_abort_info")
+        if ri == 0 and ab is not None:
+            del ends[:]
+            state.stop_training = False
+            moody_on.append(1)
+            raised = False
+            try:
+                state.fit(data, epochs=ab["E_ab"], pos_batch_size=2, lr=0.01, starting_epoch=c.get("se", 1), callbacks=cb_list)
+            except RuntimeError:
+                raised = True
+            finally:
+                del moody_on[:]
+            require(raised == (ab["stop_ab"] is None), "aborted-fit:" + ("stopped-without-rule" if not raised else "did-not-stop-when-rule-met"),
+                    f"a fit() over epochs {c.get('se', 1)}..{ab['E_ab']} whose evaluation at epoch {ab['E_ab']} fails: " +
+                    (f"training stopped at epoch {ends[-1] if ends else None} before reaching it although the rule is not met there" if not raised else f"the rule is met at epoch {ab['stop_ab']} but training went on to the failing evaluation"))
+            if not raised:
+                require(bool(ends) and ends[-1] == ab["stop_ab"], "aborted-fit:stop-epoch", f"stopped at {ends[-1] if ends else None}, rule met at {ab['stop_ab']}")
+            labels.append("after_aborted_evaluation" if raised else "abort_preempted_by_stop")
     if len(plan) > 1:
         labels.append("two_rounds")
     return {"nontrivial": nt_any, "labels": labels + (["fires"] if any(se for _, se in plan) else ["never"])}
